@@ -352,3 +352,8 @@ def check(ctx):
                        "std::sync::mpsc behaves as modelled (bounded FIFO, rendezvous at capacity 0, disconnect wakes blocked senders)",
                        "real thread schedules are sampled, not enumerated",
                        "termination bound 120 s after eos/drop, 120 s per receive, on a machine that may be loaded"]
+
+# round 6 (DESIGN.md 11.10)
+META["level_note"] += (" Streams are finite (as in the statement): with a source that never ends by itself the unchanged lifecycle stage does not "
+                       "terminate after its consumer left while a lifecycle is buffered; a live source exists only as an observation mode "
+                       "(C13_LIVE_TAIL=1), not as part of this check.")
